@@ -441,11 +441,11 @@ func (c *ComputedStyle) cascadeValue(key pr.PropKey) (value pr.DeclaredValue, sa
 			logger.WarningLogger.Printf("Ignored `%s: %s`, %s",
 				key, pa.Serialize(solvedTokens), err)
 
-			if pr.Inherited.Has(key.KnownProp) {
+			if pr.Inherited.Has(key.KnownProp) && parent_style != nil {
 				// Values in parent_style are already computed.
 				save = true
 				value = parent_style.Get(key)
-			} else {
+			} else { // not inherited, or the root element, which inherits the initial values
 				value = pr.InitialValues[key.KnownProp]
 				if !pr.InitialNotComputed.Has(key.KnownProp) {
 					// The value is the same as when computed.
